@@ -230,7 +230,10 @@ Fixpoint render (lv : nat) (r : rho) (e : mexpr) {struct e} : list token :=
 (* a word that the tokenizer would not hand out as a plain identifier, or that the parser treats
    specially by its text (checked case-insensitively) *)
 Definition special_words : list string :=
-  ["ILIKE"; "REGEXP"; "RLIKE"; "SEPARATOR"; "AGAINST"; "MATCH"].
+  ["ILIKE"; "REGEXP"; "RLIKE"; "SEPARATOR"; "AGAINST"; "MATCH";
+   (* the SQL-92 datetime value functions written without parentheses: not column names (since /repo "fix: ... datetime
+      value functions") *)
+   "CURRENT_DATE"; "CURRENT_TIME"; "CURRENT_TIMESTAMP"; "LOCALTIME"; "LOCALTIMESTAMP"].
 Definition plain_name (s : string) : bool :=
   negb (String.eqb s "") && forallb (fun w => negb (eqfold s w)) special_words.
 
@@ -307,9 +310,11 @@ Definition is_cmp_tok (t : token) : bool :=
   isT t TyEq || isT t TyLt || isT t TyGt || isT t TyNeq || isT t TyLtEq || isT t TyGtEq
   || isT t TyTilde || isT t TyTildeAsterisk || isT t TyNotTilde || isT t TyNotTildeAsterisk.
 
-(* glued to a primary: function-call parenthesis, qualifier dot, subscript bracket; MATCH..AGAINST *)
+(* glued to a primary: function-call parenthesis, qualifier dot, subscript bracket; MATCH..AGAINST; the
+   clauses that may follow the closing parenthesis of a function call (WITHIN GROUP, FILTER, OVER) *)
 Definition cont8 (t : token) : bool :=
-  isT t TyLParen || isT t TyPeriod || isT t TyLBracket || litfold t "AGAINST".
+  isT t TyLParen || isT t TyPeriod || isT t TyLBracket || litfold t "AGAINST"
+  || isT t TyWithin || isT t TyFilter || isT t TyOver.
 Definition cont7 (t : token) : bool := isT t TyDoubleColon || isT t TyJsonOp.
 Definition cont6 (t : token) : bool := isT t TyAsterisk || isT t TyMul || isT t TyDiv || isT t TyMod.
 Definition cont5 (t : token) : bool := isT t TyPlus || isT t TyMinus.
